@@ -2,9 +2,16 @@
 import gen_trie
 
 METHODS = ["GET", "POST", "PUT", "DELETE", "HEAD", "PATCH"]
-HOSTS = ["a.example.com", "b.example.com", "example.org", "a.b.example.com"]
+HOSTS = ["a.example.com", "b.example.com", "example.org", "a.b.example.com", "localhost", "abc", "a.example.com:8080",
+         "A.Example.Com", "abexample.com"]
 SEG_VALUES = ["a", "b", "ab", "abc", "abd", "v1", "v2", "x", "zz", "a.b", "a-b", "a~b", "A_1", ":a", "*b",
-              "%5Bid%5D", "a%20b", "%41", "a%2Fb", "a%2fb", "%2F", "a%25b", "a+b", "a@b"]
+              "%5Bid%5D", "a%20b", "%41", "a%2Fb", "a%2fb", "%2F", "a%25b", "a+b", "a@b",
+              "%C3%A9", "%E2%82%AC", "%ff", "%80", "Admin-1", "v1.0", "jkz", "Zz9"]
+# static segments covering every class of unreserved characters (letters of both cases incl. the hex letters, digits,
+# "-", ".", "_", "~"): re-encoding any of them must not change the rule that answers
+RICH_LITS = ["Admin-1", "v1.0", "a~b", "A_1", "jkz", "Zz9", "x-y.z_w~q", "0", "k.m", "fade", "CAFE", "b-e"]
+HOST_GLOBS = ["a*", "b*", "e*", "*.example.com", "**", "a.*.com", "*", "?.example.com", "**.com", "a.**", "local*"]
+HOST_REGEXES = ["^a\\.", "^a.e", "example\\.org$", "^abc$", "b\\.example", "^localhost$", "com$", "^A\\.", ":8080$"]
 UNRESERVED = set("abcdefghijklmnopqrstuvwxyzABCDEFGHIJKLMNOPQRSTUVWXYZ0123456789-._~")
 
 
@@ -32,12 +39,14 @@ def reencode(rng, path, p=0.25):
 def gen_tm(rng, values, sep):
     v = rng.choice(values)
     r = rng.random()
-    if r < 0.5:
+    if r < 0.45:
         return {"type": "exact", "value": v}
     lit = "".join(ch for ch in v if ch.isalnum())[: rng.choice([1, 2, 3])] or "a"
     if r < 0.75:
-        return {"type": "glob", "value": lit + "*"}
-    return {"type": "regex", "value": "^" + lit}
+        return {"type": "glob", "value": rng.choice([lit + "*", lit + "*", "*" + lit, lit + "**", lit + "?", "**", "*",
+                                                     lit[:1] + "*" + lit[-1:]])}
+    return {"type": "regex", "value": rng.choice(["^" + lit, "^" + lit, lit + "$", "^" + lit + "$", lit, "^" + lit[:1] + ".",
+                                                  "^.$", "^..$"])}
 
 
 def gen_rule(rng, rid, exprs):
@@ -48,30 +57,34 @@ def gen_rule(rng, rid, exprs):
         names = [n for n in gen_trie.wild_names(e) if n != "*"]
         if names and rng.random() < 0.45:
             for n in rng.sample(names, rng.choice([1, 1, min(2, len(names))])):
-                pp.append(dict(gen_tm(rng, ["a", "b", "ab", "abc", "v1", "v2", "[id]", "a b", "a/b", "a%2Fb", "A", "ab/c"], "/"),
+                pp.append(dict(gen_tm(rng, ["a", "b", "ab", "abc", "v1", "v2", "[id]", "a b", "a/b", "a%2Fb", "A", "ab/c", "\u00e9", "\u20ac", "Admin-1", "v1.0"], "/"),
                                name=n))
         routes.append({"path": e, "pp": pp})
     methods = []
     r = rng.random()
     if r < 0.35:
         methods = []
-    elif r < 0.6:
+    elif r < 0.58:
         methods = rng.sample(METHODS, rng.choice([1, 2, 3]))
-    elif r < 0.85:
+    elif r < 0.8:
         methods = ["ALL"] + ["!" + m for m in rng.sample(METHODS, rng.choice([0, 1, 2]))]
-    else:
+    elif r < 0.93:
         methods = rng.sample(METHODS, 2) + ["!" + rng.choice(METHODS)] + rng.choice([[], ["ALL"], [METHODS[0]]])
+    else:
+        # lists whose effective content is empty, duplicates, an empty entry
+        m = rng.choice(METHODS)
+        methods = rng.choice([["!" + m], [m, "!" + m], [m, m], ["ALL", "ALL"], [m, ""], ["!" + m, "!" + m]])
     hosts = []
     if rng.random() < 0.4:
         for _ in range(rng.choice([1, 2, 2, 3])):
             r = rng.random()
             h = rng.choice(HOSTS)
-            if r < 0.6:
+            if r < 0.5:
                 hosts.append({"type": "exact", "value": h})
-            elif r < 0.8:
-                hosts.append({"type": "glob", "value": h.split(".")[0][:1] + "*"})
+            elif r < 0.78:
+                hosts.append({"type": "glob", "value": rng.choice(HOST_GLOBS)})
             else:
-                hosts.append({"type": "regex", "value": "^" + h[:3]})
+                hosts.append({"type": "regex", "value": rng.choice(HOST_REGEXES)})
     return {"id": rid, "bt": rng.choice([True, False, None]), "esh": rng.choice(["", "", "off", "on", "no_decode"]),
             "scheme": rng.choice(["", "", "", "http", "https"]), "methods": methods, "hosts": hosts, "routes": routes}
 
@@ -109,9 +122,26 @@ def gen_target(rng, exprs):
     return p
 
 
+def rich_exprs(rng):
+    """literal expressions over the whole unreserved alphabet next to wildcard expressions matching the same paths"""
+    k = rng.choice([1, 2, 2, 3])
+    base = [rng.choice(RICH_LITS) for _ in range(k)]
+    exprs = ["/" + "/".join(base)]
+    for _ in range(rng.choice([2, 3, 4])):
+        parts = [b if rng.random() < 0.55 else rng.choice(gen_trie.WILDS) for b in base]
+        if rng.random() < 0.3:
+            parts = parts[: rng.randrange(0, k)] + [rng.choice(gen_trie.CATCH)]
+        exprs.append("/" + "/".join(parts))
+    exprs.append(rng.choice(["/**", "/*rest", "/:x"]))
+    return exprs
+
+
 def http_exprs(rng):
     """expressions whose literal segments can be sent in a request line"""
-    if rng.random() < 0.6:
+    r = rng.random()
+    if r < 0.25:
+        exprs = rich_exprs(rng)
+    elif r < 0.7:
         exprs, base = gen_trie.overlap_exprs(rng)
         exprs.append("/" + "/".join(base))
     else:
@@ -170,7 +200,10 @@ def gen_repo_case(rng, max_ops=12):
         return rules
 
     def find_op():
-        return {"op": "find", "method": rng.choice(METHODS), "host": rng.choice(HOSTS), "target": gen_target(rng, exprs)}
+        op = {"op": "find", "method": rng.choice(METHODS), "host": rng.choice(HOSTS), "target": gen_target(rng, exprs)}
+        if rng.random() < 0.35:
+            op["scheme"] = rng.choice(["https", "https", "http", "HTTPS", "ws"])
+        return op
 
     for _ in range(rng.randrange(3, max_ops)):
         r = rng.random()
